@@ -143,7 +143,15 @@ def run_mem(case):
                 ln = min(op['len'], size - addr)
                 # serialise read-vs-write on one memory
                 kinds = set(i['op'] for i in issued if i['mem'] == mid and not i.get('settled'))
-                if (op['op'] == 'read' and kinds) or (op['op'] == 'write' and 'read' in kinds):
+                overlapping = False
+                if op['op'] == 'read' and case.get('overlap_reads') and 'read' in kinds and 'write' not in kinds:
+                    # a read issued while another read of the same memory is still in flight: it has to be refused (returns
+                    # False, nothing sent for it) and the one in flight completes normally
+                    overlapping = len([n for n in notes if n[1] == mid and n[0].startswith('read')]) < len(
+                        [i for i in issued if i['mem'] == mid and i['op'] == 'read' and i['accepted']])
+                if overlapping:
+                    pass
+                elif (op['op'] == 'read' and kinds) or (op['op'] == 'write' and 'read' in kinds):
                     if case.get('asap'):
                         # carry on the moment the earlier transfers on this memory have been notified (late duplicates of
                         # their replies may then still be on their way)
@@ -161,6 +169,13 @@ def run_mem(case):
                 late = bool(env.world.fault_fired)    # the link error has been raised already and is being processed: no claim about this request
                 if op['op'] == 'read':
                     acc = cf.mem.read(m, addr, ln)
+                    if overlapping:
+                        out.feat('overlapping-read')
+                        if acc:
+                            out.fail('mem:overlapping-read-accepted', 'read(mem %d, %d, %d) was accepted while another read of that memory was in flight' % (mid, addr, ln))
+                        if op['gap']:
+                            s.sleep(op['gap'])
+                        continue
                     issued.append({'op': 'read', 'mem': mid, 'addr': addr, 'len': ln, 'accepted': bool(acc), 'snapshot': dev.mem.mems[mid].peek(addr, ln),
                                    'maybe_superseded': late})
                 else:
@@ -376,7 +391,8 @@ def mem_case(draw):
         drop = {'k': draw(st.integers(1, 24)), 'reporter': draw(st.sampled_from(['driver', 'sender', 'driver-quiet']))}
     return {'sizes': sizes, 'ops': ops, 'needs_resending': resend,
             'policy': {'delays': delays, 'dups': dups, 'errors': errors, 'dup_gap': draw(st.sampled_from([0.0001, 0.002, 0.3]))},
-            'drop': drop, 'schedule': draw(_sched), 'asap': draw(st.booleans()), 'retry_on_fail': draw(st.sampled_from([False, False, True]))}
+            'drop': drop, 'schedule': draw(_sched), 'asap': draw(st.booleans()), 'retry_on_fail': draw(st.sampled_from([False, False, True])),
+            'overlap_reads': draw(st.sampled_from([False, False, True]))}
 
 
 def drop_sweep_cases(tier):
